@@ -237,11 +237,20 @@ class VEx:
                     rest = proj[proj.index(fs[0]) + 1:]
                     nm, ty = self.upvars[fs[0][1]]
                     return self._wrap(("upvar", nm, ty), self.fields_of(rest))
+            d = None
             if self.is_var(l):
                 v = self.version(l, at)
-                leaf = ("var", self.root_name(l), l, v)
-                return self._wrap(leaf, self.fields_of(proj))
-            d = self.tr.single_def(l)
+                # SSA: a read that exactly one definition reaches (it dominates the read, no merge in between)
+                # *is* that definition - `let form = if c { A(x) } else { B }; match form { A(n) => n, .. }`
+                if v[0] == "d" and l not in self.mw and not (1 <= l <= self.argc):
+                    ds = [d_ for d_ in self.tr.defs.get(l, []) if d_[0] == v[1]]
+                    if len(ds) == 1 and ds[0][2] in ("assign", "call") and v[1] != at:
+                        d = ds[0]
+                if d is None:
+                    leaf = ("var", self.root_name(l), l, v)
+                    return self._wrap(leaf, self.fields_of(proj))
+            if d is None:
+                d = self.tr.single_def(l)
             if d is None:
                 return self._wrap(("path", self.root_name(l), ()), self.fields_of(proj), l)
             if d[2] == "assign":
